@@ -208,12 +208,19 @@ def do_deser(eolib, cls, data, chunked, fail_at=None):
     r = failing_reader(EoReader, data, fail_at) if fail_at else EoReader(bytes(data))
     if chunked:
         r.chunked_reading_mode = True
+    import time
+    t0 = time.perf_counter()
     try:
-        o = limited(2, cls.deserialize, r)
+        o = limited(20, cls.deserialize, r)
+        dt = time.perf_counter() - t0
         res = ['ok', canon(o)]
     except BaseException as e:
+        dt = time.perf_counter() - t0
         res = ['err', exc_class(e), str(e)[:120]]
-    return {'data': list(data), 'chunked': chunked, 'res': res, 'pos': int(r.position), 'mode': bool(r.chunked_reading_mode)}
+    # 'heavy': hostile length fields made the deserializer loop thousands of times (fine for CPython, too slow / too large
+    # for evaluating the reference semantics inside Coq): still checked by the oracle, excluded from the E1 comparison
+    return {'data': list(data), 'chunked': chunked, 'res': res, 'pos': int(r.position), 'mode': bool(r.chunked_reading_mode),
+            'heavy': bool(dt > 0.004 and res[:2] != ['err', 'EFuel'])}
 
 
 def mutate(rng, data, n):
